@@ -98,6 +98,17 @@ class C05(Prop):
             t = gen.freeze(gen.table(rng, maxrows=5, alphabet=gen.key_alphabet(rng), ragged=rng.random() < 0.2, minrows=0))
             key = _keys_for(rng, t[0])
             yield Case('issorted', (key, rng.random() < 0.3, rng.random() < 0.3, t))
+        # issorted with key=None on ragged rows keys a row like sort(key=None) does (missing cells count as None, cells beyond
+        # the header are ignored): tables in random order and in that order
+        for _ in range(40 if tier == 'quick' else 400):
+            hdr = ('a', 'b')
+            rows = []
+            for _i in range(rng.choice([2, 3, 4])):
+                w = rng.choice([0, 1, 2, 2, 3])
+                rows.append(tuple(rng.choice([None, 0, 1]) for _j in range(w)))
+            srt = sorted(rows, key=lambda r: [(-1 if c is None else c) for c in (list(r) + [None, None])[:2]])
+            for rr in (rows, srt, srt[::-1]):
+                yield Case('issorted', (None, rr is not rows and rr is not srt, rng.random() < 0.2, (hdr,) + tuple(rr)))
 
     def impl(self, case):
         import petl as etl
@@ -126,6 +137,21 @@ class C05(Prop):
             key, rev, strict, t = case.arg
             return obs_call(lambda: etl.issorted([tuple(r) for r in t], key=key, reverse=rev, strict=strict))
         raise ValueError(case.op)
+
+    def spec(self, case, impl_obs, model_obs):
+        # issorted and sort speak about the same ordering: a table is sorted exactly when the stable sort leaves it as it is
+        if case.op == 'issorted' and impl_obs in (codec.t_bool(True), codec.t_bool(False)):
+            import petl as etl
+            key, rev, strict, t = case.arg
+            try:
+                same = [tuple(r) for r in etl.sort([tuple(r) for r in t], key=key, reverse=rev)] == [tuple(r) for r in t]
+            except Exception:
+                return None
+            said = impl_obs == codec.t_bool(True)
+            if not strict:
+                return said == same
+            return False if (said and not same) else None
+        return None
 
     def spec_case(self, case, impl_obs):
         if case.op == 'sort' and impl_obs[0] == 'li':
